@@ -527,7 +527,9 @@ def _length_shapes(tier):
     out = [dict(p=1, n=2, samples=3, net='sym'), dict(p=1, n=3, samples=3, net='sym'), dict(p=2, n=3, samples=3, net='sym'),
            dict(p=1, n=3, samples=5, net='sym'), dict(p=3, n=4, samples=3, net='sym'),
            dict(p=1, n=3, samples=3, net='lattice'), dict(p=1, n=4, samples=4, net='lattice'), dict(p=1, n=5, samples=5, net='lattice'),
-           dict(p=2, n=4, samples=4, net='lattice'), dict(p=3, n=5, samples=4, net='lattice')]
+           dict(p=2, n=4, samples=4, net='lattice'), dict(p=3, n=5, samples=4, net='lattice'),
+           # a sub-range was evaluated before the length is asked for: the length is still that of the whole curve
+           dict(p=1, n=3, samples=3, net='sym', partial=True), dict(p=2, n=4, samples=4, net='lattice', partial=True)]
     if tier == 'thorough':
         out += [dict(p=2, n=3, samples=4, net='sym'), dict(p=1, n=4, samples=4, net='sym'), dict(p=2, n=4, samples=3, net='sym'),
                 dict(p=1, n=6, samples=6, net='lattice')]
@@ -536,7 +538,7 @@ def _length_shapes(tier):
 
 @scenario('C18', fns=['operations.length_curve', 'linalg.point_distance', 'abstract.Curve.evalpts'],
           quick=lambda: _length_shapes('quick'), thorough=lambda: _length_shapes('thorough'))
-def length(ctx, p, n, samples, net):
+def length(ctx, p, n, samples, net, partial=False):
     """requires: non-rational clamped curve, uniform concrete knots, `samples` evaluated points;
                  net='sym': one symbolic coordinate per control point, 'lattice': control polygon with rational steps
        ensures : length_curve == sum of |evalpts[i+1] - evalpts[i]|  >=  |evalpts[-1] - evalpts[0]| = |P[-1] - P[0]|;
@@ -549,8 +551,13 @@ def length(ctx, p, n, samples, net):
         P = [[ctx.lit(c) for c in pt] for pt in _lattice_polygon(n)]
     crv = shapes.build_curve(ctx, p, U, P)
     crv.sample_size = samples
+    if partial:
+        crv.evaluate(start=Fraction(1, 4), stop=Fraction(3, 4))
     L = ops.length_curve(crv)
-    pts = crv.evalpts
+    if partial:
+        pts = crv.evaluate_list([ctx.lit(Fraction(i, samples - 1)) for i in range(samples)])
+    else:
+        pts = crv.evalpts
     ctx.check_true('samples', len(pts) == samples)
 
     def dist(a, b):
